@@ -455,6 +455,8 @@ def backend_name(b):
             s += '/pickle'
         if b.get('noext'):
             s += '/noext'
+        if b.get('symlink'):
+            s += '/symlink'
     if b['kind'] == 'sql':
         s += '/mem' if b.get('memory') else '/file'
     return s
